@@ -4,7 +4,7 @@ package main
 // queries stay linear in the size of the function (states are merged at every
 // join and would otherwise be duplicated at each use).
 func (c *Ctx) nameIfBig(prefix string, t *Term) *Term {
-	if t == nil || len(t.Args) == 0 || termSize(t) <= 12 {
+	if t == nil || len(t.Args) == 0 || termSize(t) <= 12 || !isGround(t, nil) {
 		return t
 	}
 	n := c.fresh(prefix, t.Sort)
